@@ -192,8 +192,10 @@ static inline int readline_putchar(struct readline *rl, char c)
             // TODO: Возможно тут некорректно отрабатывается комбинация rnrnrnrn
             if ((rl->last == '\n' || rl->last == '\r') && rl->last != c)
             {
+                // second half of a CR LF / LF CR pair: swallowed, and it
+                // must not itself pair with the next CR or LF
                 rl->last = 0;
-                retcode = READLINE_NOTHING;
+                return READLINE_NOTHING;
             }
             else
             {
